@@ -206,9 +206,18 @@ pub fn one_case(sys: usize, sh: &Shape, rng: &mut Rng, id: String) -> Case {
         follow_atts.push(OsIpcChannel::Sender(a));
         follow_keep.push(b);
     }
-    tx.send(SENTINEL, follow_atts, vec![]).unwrap();
+    let follow_ok = match tx.send(SENTINEL, follow_atts, vec![]) {
+        Ok(()) => true,
+        Err(e) => {
+            // whatever became of the message before (sent, refused as over-full, failed half way): the receiver is alive, so the
+            // channel has to go on working
+            case.fail(format!("an ordinary message sent after a message that {} was refused with {:?}: the channel is no longer usable although its receiver is alive",
+                              if res.is_ok() { "was sent" } else { "was refused / had failed" }, e));
+            false
+        },
+    };
     let mut got = Vec::new();
-    loop {
+    while follow_ok {
         match grx.recv_timeout(std::time::Duration::from_secs(6)) {
             Ok(Got::Msg(d, c, s, t)) => {
                 let fin = d == SENTINEL;
